@@ -179,7 +179,7 @@ def build_unit_text(unit, src):
     for f in unit.fns:
         inits = ''
         if getattr(f, 'ctor', False):
-            # R17: mem-initializer list -> one statement per initializer, in textual order, ahead of the constructor body
+            # R19: mem-initializer list -> one statement per initializer, in textual order, ahead of the constructor body
             ex = src.ctor(f.header, f.scope)
             inits = ''.join(' VX_INIT__%s(%s);' % it for it in ex['inits'])
         else:
